@@ -25,6 +25,7 @@ def run(ctx: Ctx) -> list[Ob]:
     obs += [o for o in r3.r3d(ctx) if o.instance.startswith('settings:')]
     obs += r13.r13g(ctx)
     obs += r11.r11m(ctx)
+    obs += r13.r13i(ctx) + r13.r13i_consistent(ctx)
     return obs
 
 
@@ -41,11 +42,12 @@ SPEC = PropSpec(
         " R4a/R4l on the normalising operators (softmax, log-softmax, sigmoid, mixing weights; shape interpretation): forward returns (F, *shape) and, for the mixing-weight matrix, the H*K columns are laid out arity-major with the unit axis tied to the row by an identity -- a tile in place of an interleave pairs entry j of the weights with entry j of the identity across different factorisations of the axis, and the rows no longer sum to one unless gcd(K, H) = 1. R13g: the default sum-weight parameterisation of image_data / tabular_data has activation softmax (a Dirichlet draw without activation is normalised only until the first update). R3d settings: the fold-group key of layers contains the whole config (two Binomial layers with different total_count must not share a folded layer that is rebuilt from the first one's config)."
         ' R11l: no log-likelihood multiplies an input-derived factor (a count x, n - x) by the unclamped logarithm of a parameter-derived probability: at the in-support point where the factor is 0 and the probability has rounded to 0 / 1 (a saturated sigmoid) that is 0 * -inf = nan; torch.xlogy / xlog1py or a clamp (as torch.distributions does) is required.'
         ' R11m: an exponential-family layer whose log_unnormalized_likelihood is a torch.distributions log_prob (already normalised), possibly plus a parameter A of the layer, has log_partition_function equal to that A -- zeros when nothing is added; the textbook log-normaliser (n * softplus(logits) of a Binomial) would be counted twice, on that parameterisation only.'
+        ' R13i: every kind of factor has as many states as the mode it encodes -- the size keyword the tensor-factorisation templates pass is num_categories=dim / num_states=dim / total_count=dim - 1 (a Binomial with total count n has n + 1 states), decided as a polynomial identity in dim; the alternative input layers of image_data denote the same number of states (256, 256, 255 + 1).'
     ),
     not_decided=(
         "Z == 1 itself, non-negativity and finiteness in log space (numerical); that every template wires the factories into every sum "
         "layer; normalisation of the input distributions; behaviour after training steps."
     ),
     run=run,
-    floors={"R11m": 3, "R4a": 8, "R11d": 2, "R13a": 2, "R13c": 2, "N1": 2, "R1c": 4, "R5a": 2, "R3a": 4},
+    floors={"R13i": 4, "R11m": 3, "R4a": 8, "R11d": 2, "R13a": 2, "R13c": 2, "N1": 2, "R1c": 4, "R5a": 2, "R3a": 4},
 )
